@@ -3753,3 +3753,63 @@ func E9OperandListsSeparate(c *core.Ctx, r *core.Report) {
 	r.Count("E9.operand-lists-separate", n)
 	r.Floor("E9.operand-lists-separate", 2)
 }
+
+// E9CurveParameterDomain: the curve is evaluated at the curve's own parameter.
+func E9CurveParameterDomain(c *core.Ctx, r *core.Report) {
+	r.Rule("E9.curve-parameter-domain", "the line–quadratic and line–cubic helpers loop over the roots of the curve's polynomial; an intersection has two parameters, the root t on the curve and the position s along the line, both in [0,1]. Every evaluation of the curve inside that loop (position, derivatives, direction: the package functions whose name begins with quadraticBezier or cubicBezier) is made at the loop's root variable — never at the line parameter or anything else. The second derivative taken at s decides the up/down nudge of an end-point hit by the sign the curve has at an unrelated parameter: for an S-shaped cubic the direction of the hit then depends on how far the query point lies from the vertex")
+	p := c.MustPkg("")
+	info := p.TypesInfo
+	n := 0
+	for _, name := range []string{"intersectionLineQuad", "intersectionLineCube"} {
+		fd := core.MustFuncDecl(p, name)
+		r.Func("canvas." + name)
+		ast.Inspect(fd.Body, func(m ast.Node) bool {
+			rs, ok := m.(*ast.RangeStmt)
+			if !ok {
+				return true
+			}
+			vid, ok := rs.Value.(*ast.Ident)
+			if !ok {
+				return true
+			}
+			root := info.Defs[vid]
+			if root == nil {
+				return true
+			}
+			if b, ok := root.Type().Underlying().(*types.Basic); !ok || b.Kind() != types.Float64 {
+				return true
+			}
+			k := 0
+			ast.Inspect(rs.Body, func(q ast.Node) bool {
+				call, ok := q.(*ast.CallExpr)
+				if !ok || len(call.Args) < 2 {
+					return true
+				}
+				f := core.CalleeOf(info, call)
+				if f == nil || f.Pkg() != p.Types || !(strings.HasPrefix(f.Name(), "cubicBezier") || strings.HasPrefix(f.Name(), "quadraticBezier")) {
+					return true
+				}
+				sig := f.Type().(*types.Signature)
+				last := sig.Params().At(sig.Params().Len() - 1)
+				if b, ok := last.Type().Underlying().(*types.Basic); !ok || b.Kind() != types.Float64 {
+					return true
+				}
+				k++
+				n++
+				key := fmt.Sprintf("canvas.%s|%s #%d evaluated at the root", name, f.Name(), k)
+				arg := core.Unparen(call.Args[len(call.Args)-1])
+				if id, ok := arg.(*ast.Ident); ok && core.ObjOf(info, id) == root {
+					r.OK("E9.curve-parameter-domain", key, c.Pos(call.Pos()), "")
+				} else if _, isConst := core.ConstInt(info, arg); isConst || core.ConstVal(info, arg) != nil {
+					r.OK("E9.curve-parameter-domain", key, c.Pos(call.Pos()), "constant parameter")
+				} else {
+					r.Fail("E9.curve-parameter-domain", key, c.Pos(call.Pos()), fmt.Sprintf("`%s` evaluates the curve at `%s`, not at the root `%s` the loop is looking at: that value is a parameter of something else (the position along the line), so the derivative belongs to a different point of the curve and the direction given to this hit is arbitrary", types.ExprString(call), types.ExprString(arg), vid.Name))
+				}
+				return true
+			})
+			return true
+		})
+	}
+	r.Count("E9.curve-parameter-domain", n)
+	r.Floor("E9.curve-parameter-domain", 4)
+}
